@@ -3,6 +3,7 @@ package c16
 import (
 	"encoding/json"
 	"fmt"
+	"os"
 	"strings"
 	"testing"
 	"time"
@@ -300,6 +301,15 @@ const bucketSlots = maxClockN + 8 // buckets base-4 .. base+maxClockN+3
 type tally struct {
 	arrived [2][2][bucketSlots][3]int64 // [rule][key][bucket][group]: everything that arrived, passed or not
 	passed  [2][2][bucketSlots][3]int64
+	touched [][3]int
+}
+
+func (t *tally) reset() {
+	for _, c := range t.touched {
+		t.arrived[c[0]][c[1]][c[2]] = [3]int64{}
+		t.passed[c[0]][c[1]][c[2]] = [3]int64{}
+	}
+	t.touched = t.touched[:0]
 }
 
 type verdict struct {
@@ -336,7 +346,7 @@ func (w *world) run(ops []op, tl *tally, out *outcome, verbose bool) (v *verdict
 	throttle.VerifForget(w.mixed.p)
 	throttle.VerifForget(w.proj[0].p)
 	throttle.VerifForget(w.proj[1].p)
-	*tl = tally{}
+	tl.reset()
 	*out = outcome{trace: out.trace[:0]}
 	clockN := 0
 	clockNow = base
@@ -391,6 +401,7 @@ func (w *world) run(ops []op, tl *tally, out *outcome, verbose bool) (v *verdict
 		if rs.distr {
 			g = o.Val
 		}
+		tl.touched = append(tl.touched, [3]int{ri, o.Key, int(slot)})
 		arr := &tl.arrived[ri][o.Key][slot]
 		pas := &tl.passed[ri][o.Key][slot]
 		arr[g] += amount
@@ -436,9 +447,10 @@ func (w *world) run(ops []op, tl *tally, out *outcome, verbose bool) (v *verdict
 					return &verdict{"under-limit-reject", "rejected although arrivals (incl. this one) are within the limit: " + where(), feat()}
 				}
 			} else if g > 0 {
-				// unlisted events may legitimately have taken from this share: count all of them against it
-				if arr[g]+arr[0] <= rs.shares[g] {
-					return &verdict{"under-limit-reject", "listed value rejected although its arrivals plus all unlisted arrivals are within its share: " + where(), feat()}
+				// unlisted events that were let through may legitimately have taken from this share (README note 3):
+				// count every one of them against it, whichever share they really used
+				if arr[g]+pas[0] <= rs.shares[g] {
+					return &verdict{"under-limit-reject", "listed value rejected although its arrivals plus all unlisted events let through are within its share: " + where(), feat()}
 				}
 			} else {
 				if arr[0] <= rs.shares[0] {
@@ -480,25 +492,114 @@ type plan struct {
 	Depth int
 }
 
-var allTimes = []int{0, -1, 1, -2, 3, farPast, farFuture}
+var (
+	allTimes = []int{0, -1, 1, -2, 3, farPast, farFuture}
+	times4   = []int{0, -1, 1, farPast}
+	times3   = []int{0, -1, 1}
+	bothKeys = []int{0, 1}
+	noVal    = []int{0}
+	allVals  = []int{0, 1, 2}
+	noCond   = []bool{false}
+	anyCond  = []bool{false, true}
+)
+
+func sizesFor(kinds ...string) []int {
+	for _, k := range kinds {
+		if k == "size" {
+			return []int{1, 3}
+		}
+	}
+	return []int{3} // limit_kind=count must ignore the size; 3 > every limit of the grid
+}
+
+func clocksFor(bc int) []int { return []int{1, 2, bc + 1} }
 
 func plans(thorough bool) []plan {
 	var out []plan
-	depth := 5
+	d := 5
 	if thorough {
-		depth = 6
+		d = 6
 	}
+	add := func(name string, cfg cfgT, depth int, times, sizes, vals []int, conds []bool, clocks []int) {
+		out = append(out, plan{name, cfg, alphabet{bothKeys, times, sizes, vals, conds, clocks}, depth})
+	}
+	times5 := []int{0, -1, 1, -2, farPast}
+	nowPast := []int{0, farPast}
+
+	// family "base": one rule, no distribution, the full event alphabet; limit 0 one step shallower
 	for _, kind := range []string{"count", "size"} {
-		sizes := []int{3}
-		if kind == "size" {
-			sizes = []int{1, 3}
-		}
 		for _, bc := range []int{2, 3} {
-			clocks := []int{1, 2, bc + 1}
 			for _, limit := range []int64{1, 2, 0} {
-				// family "base": one rule, no distribution, the full event alphabet
-				out = append(out, plan{"base", cfgT{Limit: limit, Kind: kind, Buckets: bc},
-					alphabet{Keys: []int{0, 1}, Times: allTimes, Sizes: sizes, Vals: []int{0}, Conds: []bool{false}, Clocks: clocks}, depth})
+				cfg := cfgT{Limit: limit, Kind: kind, Buckets: bc}
+				switch {
+				case limit == 0:
+					add("base", cfg, d-1, allTimes, sizesFor(kind), noVal, noCond, clocksFor(bc))
+				case thorough && kind == "size":
+					// 31^6 sequences per configuration are out of reach: full alphabet one step shallower, five times at full depth
+					add("base", cfg, d-1, allTimes, sizesFor(kind), noVal, noCond, clocksFor(bc))
+					add("base-5times", cfg, d, times5, sizesFor(kind), noVal, noCond, clocksFor(bc))
+				default:
+					add("base", cfg, d, allTimes, sizesFor(kind), noVal, noCond, clocksFor(bc))
+				}
+			}
+		}
+	}
+
+	// family "rule": an extra rule {r:"1"} in front of the default rule, with another limit and (partly) another kind
+	type rc struct {
+		l  int64
+		k  string
+		rl int64
+		rk string
+		bc int
+	}
+	for _, c := range []rc{
+		{1, "count", 2, "count", 2},
+		{2, "count", 0, "count", 3},
+		{0, "count", 1, "count", 2},
+		{1, "size", 2, "count", 3},
+		{2, "count", 1, "size", 2},
+	} {
+		cfg := cfgT{Limit: c.l, Kind: c.k, Buckets: c.bc, Rule: true, RuleLimit: c.rl, RuleKind: c.rk}
+		sizes := sizesFor(c.k, c.rk)
+		if len(sizes) == 1 {
+			add("rule", cfg, d, times4, sizes, noVal, anyCond, clocksFor(c.bc))
+			if thorough {
+				add("rule-alltimes", cfg, d-1, allTimes, sizes, noVal, anyCond, clocksFor(c.bc))
+			}
+		} else {
+			add("rule", cfg, d-1, times4, sizes, noVal, anyCond, clocksFor(c.bc))
+			add("rule-deep", cfg, d, nowPast, sizes, noVal, anyCond, []int{1, c.bc + 1})
+		}
+	}
+	// the extra rule carries the distribution, the default rule does not
+	{
+		cfg := cfgT{Limit: 1, Kind: "count", Buckets: 2, Rule: true, RuleLimit: 4, RuleKind: "count", RuleDistr: true}
+		add("rule-distr", cfg, d-1, []int{0, -1, farPast}, sizesFor("count"), allVals, anyCond, clocksFor(2))
+		add("rule-distr-deep", cfg, d, []int{0}, sizesFor("count"), allVals, anyCond, []int{1, 3})
+	}
+
+	// family "distr": limit_distribution lvl: 0.5 -> x, 0.3 -> y on the default rule
+	for _, kind := range []string{"count", "size"} {
+		for _, limit := range []int64{4, 2, 1, 0} {
+			for _, bc := range []int{2, 3} {
+				if (limit == 0 || limit == 1) && bc == 3 {
+					continue
+				}
+				cfg := cfgT{Limit: limit, Kind: kind, Buckets: bc, Distr: true}
+				if kind == "count" {
+					depth := d
+					if limit == 0 {
+						depth = d - 1
+					}
+					add("distr", cfg, depth, times3, sizesFor(kind), allVals, noCond, clocksFor(bc))
+					if thorough && limit >= 2 && bc == 2 {
+						add("distr-alltimes", cfg, d-1, allTimes, sizesFor(kind), allVals, noCond, clocksFor(bc))
+					}
+				} else {
+					add("distr", cfg, d-1, times3, sizesFor(kind), allVals, noCond, clocksFor(bc))
+					add("distr-deep", cfg, d, nowPast, sizesFor(kind), []int{0, 1}, noCond, []int{1, bc + 1})
+				}
 			}
 		}
 	}
@@ -515,6 +616,19 @@ func pow(a, n int) int64 {
 	return r
 }
 
+// a plan that has produced this many violations in one shard is abandoned (the run is then not exhaustive)
+const maxViolationsPerPlan = 50
+
+// canonical: key names are interchangeable, so only sequences whose first event has key a are run.
+func canonical(ops []op) bool {
+	for _, o := range ops {
+		if o.Clock == 0 {
+			return o.Key == 0
+		}
+	}
+	return true
+}
+
 func TestVerif(t *testing.T) {
 	vplug.Quiet()
 	r := vreport.Start("C16")
@@ -528,9 +642,9 @@ func TestVerif(t *testing.T) {
 		w := newWorld(tc.Cfg)
 		defer w.close()
 		fmt.Printf("config %s\n", tc.Cfg.pluginJSON())
-		var tl tally
+		tl := &tally{}
 		var out outcome
-		if v := w.run(tc.Ops, &tl, &out, true); v != nil {
+		if v := w.run(tc.Ops, tl, &out, true); v != nil {
 			fmt.Printf("REPLAY VIOLATION %s: %s\n", v.clause, v.detail)
 		} else {
 			fmt.Println("REPLAY OK (no violation)")
@@ -539,16 +653,29 @@ func TestVerif(t *testing.T) {
 	}
 
 	ps := plans(r.Thorough())
-	r.Rule("every operation sequence of the plan's length over the plan's alphabet (events x clock advances) on fresh limiters; every prefix is checked on the way, so shorter sequences are covered; non-trivial = at least one event passed and at least one was rejected; distinct = distinct (config, per-event rule/key/bucket/group/decision trace)")
-	var tl tally
+	if os.Getenv("VERIF_C16_PLANS") != "" {
+		var sum int64
+		for pi, pl := range ps {
+			n := pow(len(pl.Alpha.letters()), pl.Depth)
+			sum += n
+			fmt.Printf("plan %02d %-16s A=%3d depth=%d seq=%11d %s\n", pi, pl.Name, len(pl.Alpha.letters()), pl.Depth, n, pl.Cfg)
+		}
+		fmt.Printf("total %d (about half are run: key symmetry)\n", sum)
+		return
+	}
+	r.Rule("every operation sequence of the plan's length over the plan's alphabet (events x clock advances) whose first event has key a, on fresh limiters; every prefix is checked on the way, so all shorter sequences are covered; non-trivial = at least one event passed and at least one was rejected; distinct = distinct (config, per-event rule/key/bucket/group/decision trace)")
+	tl := &tally{}
 	var out outcome
 	var nSeq, nEvents, nPassed, nRejected, nRemapped int64
 	item := int64(0)
+	total := int64(0)
 	for pi, pl := range ps {
 		letters := pl.Alpha.letters()
 		A := len(letters)
 		r.Bound(fmt.Sprintf("plan_%02d_%s", pi, pl.Name), fmt.Sprintf("%s alphabet=%d depth=%d sequences=%d", pl.Cfg, A, pl.Depth, pow(A, pl.Depth)))
+		total += pow(A, pl.Depth)
 		var w *world
+		nViol, stopPlan := 0, false
 		ops := make([]op, pl.Depth)
 		idx := make([]int, pl.Depth)
 		for p2 := 0; p2 < A*A; p2++ {
@@ -557,10 +684,13 @@ func TestVerif(t *testing.T) {
 			if !mine {
 				continue
 			}
+			idx[0], idx[1] = p2/A, p2%A
+			if !canonical([]op{letters[idx[0]], letters[idx[1]], {Clock: 0, Key: 0}}) {
+				continue
+			}
 			if w == nil {
 				w = newWorld(pl.Cfg)
 			}
-			idx[0], idx[1] = p2/A, p2%A
 			for i := 2; i < pl.Depth; i++ {
 				idx[i] = 0
 			}
@@ -569,24 +699,31 @@ func TestVerif(t *testing.T) {
 				for i, x := range idx {
 					ops[i] = letters[x]
 				}
-				r.Case()
-				nSeq++
-				v := w.run(ops, &tl, &out, false)
-				r.Steps(int64(len(ops)))
-				nEvents += int64(out.events)
-				nPassed += int64(out.passed)
-				nRejected += int64(out.rejected)
-				nRemapped += int64(out.remapped)
-				if v != nil {
-					r.Violation(v.clause, v.feat, fmt.Sprintf("config %s\nsequence %v\n%s", pl.Cfg, ops, v.detail),
-						tcase{pl.Cfg, append([]op{}, ops...)})
-				}
-				if out.passed > 0 && out.rejected > 0 {
-					r.Nontrivial()
-				}
-				r.Outcome(fmt.Sprint(pi), string(out.trace))
-				if nSeq%50021 == 1 {
-					r.Sample(map[string]any{"cfg": pl.Cfg, "ops": fmt.Sprint(ops), "decisions": fmt.Sprintf("%0*b", len(ops), out.decisions)})
+				if canonical(ops) {
+					r.Case()
+					nSeq++
+					v := w.run(ops, tl, &out, false)
+					r.Steps(int64(len(ops)))
+					nEvents += int64(out.events)
+					nPassed += int64(out.passed)
+					nRejected += int64(out.rejected)
+					nRemapped += int64(out.remapped)
+					if v != nil {
+						r.Violation(v.clause, v.feat, fmt.Sprintf("config %s\nsequence %v\n%s", pl.Cfg, ops, v.detail),
+							tcase{pl.Cfg, append([]op{}, ops...)})
+						nViol++
+						if nViol >= maxViolationsPerPlan {
+							r.Cap(fmt.Sprintf("plan stopped after %d violations", maxViolationsPerPlan))
+							stopPlan = true
+						}
+					}
+					if out.passed > 0 && out.rejected > 0 {
+						r.Nontrivial()
+					}
+					r.Outcome(fmt.Sprint(pi), string(out.trace))
+					if nSeq%50021 == 1 {
+						r.Sample(map[string]any{"cfg": pl.Cfg, "ops": fmt.Sprint(ops), "decisions": fmt.Sprintf("%0*b", len(ops), out.decisions)})
+					}
 				}
 				// next sequence with the same two first letters
 				i := pl.Depth - 1
@@ -601,11 +738,11 @@ func TestVerif(t *testing.T) {
 					break
 				}
 				cnt++
-				if cnt%2048 == 0 && r.Expired() {
+				if stopPlan || (cnt%2048 == 0 && r.Expired()) {
 					break
 				}
 			}
-			if r.Expired() {
+			if stopPlan || r.Expired() {
 				break
 			}
 		}
@@ -616,6 +753,8 @@ func TestVerif(t *testing.T) {
 			break
 		}
 	}
+	r.Bound("plans", len(ps))
+	r.Bound("sequences_before_key_symmetry", total)
 	r.Count("sequences", nSeq)
 	r.Count("events", nEvents)
 	r.Count("events_passed", nPassed)
